@@ -234,7 +234,13 @@ pub fn judge_c04(script: &Script, obs: &Observation) -> CaseResult {
             }
         }
     }
-    let names: Vec<&str> = want.iter().map(|(n, _)| n.as_str()).collect();
+    let mut names: Vec<&str> = want.iter().map(|(n, _)| n.as_str()).collect();
+    if flat.iter().any(|s| matches!(s, Step::DropEvents)) {
+        // the application gave up its events handle: what it had received until then must be a
+        // prefix of what the server reported (nothing invented, reordered or skipped)
+        r.class("events_handle_dropped");
+        names.truncate(got.len());
+    }
     if got.iter().map(String::as_str).collect::<Vec<_>>() != names {
         r.fail(format!(
             "events delivered {got:?}, but the server reported {names:?} (lines consumed by a receive() that was cancelled in favour of a request: {:?})",
@@ -392,7 +398,7 @@ pub fn systematic_scripts(max_len: usize, seeds: u64) -> impl Iterator<Item = Sc
                 let mut replies = Vec::new();
                 let mut k = 0;
                 let steps = digits.iter().map(|d| atom(*d, &mut k, &mut replies)).collect();
-                Script { sched_seed: seed + 1, seg, replies, steps, max_write: None, picture: None, broken_pipe: true, greeting: None, lazy_events: false }
+                Script { sched_seed: seed + 1, seg, replies, steps, max_write: None, picture: None, broken_pipe: true, greeting: None, lazy_events: false, version: None, vectored: false }
             })
         })
     })
@@ -443,7 +449,7 @@ fn slow_consumer_part() -> Box<dyn crate::core::Part> {
                             steps.push(Step::Advance(101));
                         }
                     }
-                    Script { sched_seed: seed, seg: sim::SegPattern::Whole, replies, steps, max_write: None, picture: None, broken_pipe: true, greeting: None, lazy_events: true }
+                    Script { sched_seed: seed, seg: sim::SegPattern::Whole, replies, steps, max_write: None, picture: None, broken_pipe: true, greeting: None, lazy_events: true, version: None, vectored: false }
                 })
                 .boxed()
         }),
